@@ -27,8 +27,7 @@ type tpxEntry struct {
 	Kind   string // help type unit comment series hist
 	Name   string // metadata: family name as reported
 	Text   string // metadata text / type name
-	Labels string // series: canonical labels string
-	LS     labels.Labels
+	LS     labels.Labels // series: labels
 	HasTS  bool
 	TS     int64
 	Val    uint64 // float bits (series)
@@ -38,12 +37,7 @@ type tpxEntry struct {
 	ST     int64
 }
 
-func tpxBits(f float64) uint64 {
-	if math.IsNaN(f) {
-		return 0x7ff8000000000001
-	}
-	return math.Float64bits(f)
-}
+func tpxBits(f float64) uint64 { return math.Float64bits(f) }
 
 func tpxF(b uint64) string {
 	return fmt.Sprint(math.Float64frombits(b))
@@ -58,7 +52,7 @@ func (e tpxEntry) String() string {
 		fmt.Fprintf(&sb, " %q %q", e.Name, e.Text)
 		return sb.String()
 	}
-	sb.WriteString(" " + e.Labels)
+	sb.WriteString(" " + e.LS.String())
 	if e.HasTS {
 		fmt.Fprintf(&sb, " @%d", e.TS)
 	}
@@ -82,6 +76,43 @@ func (e tpxEntry) String() string {
 	return sb.String()
 }
 
+// tpxSame compares two entries structurally (what String renders, without rendering).
+func tpxSame(a, b *tpxEntry) bool {
+	if a.Kind != b.Kind || a.Name != b.Name || a.Text != b.Text || a.HasTS != b.HasTS || a.TS != b.TS || a.Val != b.Val || a.ST != b.ST || len(a.Ex) != len(b.Ex) {
+		return false
+	}
+	if !labels.Equal(a.LS, b.LS) {
+		return false
+	}
+	for i := range a.Ex {
+		if a.Ex[i] != b.Ex[i] {
+			return false
+		}
+	}
+	if (a.H == nil) != (b.H == nil) || (a.FH == nil) != (b.FH == nil) {
+		return false
+	}
+	if a.H != nil && !(a.H.Equals(b.H) && a.H.CounterResetHint == b.H.CounterResetHint) {
+		return a.String() == b.String() // Equals is strict about NaN sums: fall back to the rendering
+	}
+	if a.FH != nil && !(a.FH.Equals(b.FH) && a.FH.CounterResetHint == b.FH.CounterResetHint) {
+		return a.String() == b.String()
+	}
+	return true
+}
+
+func tpxSameList(a, b []tpxEntry) bool {
+	if len(a) != len(b) {
+		return false
+	}
+	for i := range a {
+		if !tpxSame(&a[i], &b[i]) {
+			return false
+		}
+	}
+	return true
+}
+
 func tpxStrings(es []tpxEntry) []string {
 	out := make([]string, len(es))
 	for i, e := range es {
@@ -94,6 +125,12 @@ func tpxStrings(es []tpxEntry) []string {
 // when start-timestamp ingestion is on). The returned error is the terminating error when it is
 // not io.EOF. maxEntries guards against a parser that never terminates.
 func tpxCollect(p Parser, wantST bool, maxEntries int) (out []tpxEntry, err error) {
+	return tpxCollectInto(p, wantST, maxEntries, make([]tpxEntry, 0, 24))
+}
+
+// tpxCollectInto is tpxCollect appending to buf[:0] (buffer reuse in hot loops).
+func tpxCollectInto(p Parser, wantST bool, maxEntries int, buf []tpxEntry) (out []tpxEntry, err error) {
+	out = buf[:0]
 	for {
 		if len(out) > maxEntries {
 			return out, errors.New("tpx: parser did not terminate")
@@ -143,7 +180,6 @@ func tpxCollect(p Parser, wantST bool, maxEntries int) (out []tpxEntry, err erro
 			var l labels.Labels
 			p.Labels(&l)
 			en.LS = l.Copy()
-			en.Labels = l.String()
 			if wantST {
 				en.ST = p.StartTimestamp()
 			}
